@@ -486,6 +486,11 @@ def run(ck):
     t0 = time.time()
     oracle_fail += c07_strings.string_level(ck, rng, thorough)
     timing["string_level_s"] = round(time.time() - t0, 1)
+    ufails, ucases, umeta = c07_strings.uncertainty_level(ck, rng, thorough)
+    oracle_fail += ufails
+    cases += ucases
+    meta += umeta
+    timing["string_level_s"] = round(time.time() - t0, 1)
     t0 = time.time()
     oracle_fail += c07_strings.no_execution(ck, rng, thorough)
     timing["no_execution_s"] = round(time.time() - t0, 1)
